@@ -200,6 +200,9 @@ def run_job(job):
         # attribute order
         d2 = X.rewrite(xml, ["attr_order"], rr)
         cases.append(pair(model, info, cfg, "attrs", data, d2))
+        # other prefixes (the original declarations stay, new prefixes are used for the names; xsi:type values re-spelled)
+        d4 = X.rewrite(xml, ["prefixes", "qname_attrs"], rr)
+        cases.append(pair(model, info, cfg, "rename", data, d4))
         # declarations: same lookups
         st = R.struct_of(LET.fromstring(data), {})
         redeclare(rr, st)
